@@ -67,15 +67,42 @@ Proof.
   - destruct (name_eqb k m); auto.
 Qed.
 
+Lemma nlookup_In : forall {A} (s : list (name * A)) n x, nlookup s n = Some x -> In (n, x) s.
+Proof.
+  induction s as [|[m y] t IH]; simpl; intros; [discriminate|].
+  destruct (name_eqb m n) eqn:E.
+  - apply name_eqb_eq in E. inversion H; subst. auto.
+  - right. auto.
+Qed.
+
+Lemma In_nset : forall {A} (s : list (name * A)) n x p, In p (nset s n x) -> In p s \/ p = (n, x).
+Proof.
+  induction s as [|[m y] t IH]; simpl; intros.
+  - destruct H as [H|[]]; auto.
+  - destruct (name_eqb m n) eqn:E.
+    + apply name_eqb_eq in E. subst. destruct H as [H|H]; auto.
+    + destruct H as [H|H]; auto. destruct (IH _ _ _ H); auto.
+Qed.
+
+Lemma In_ndel : forall {A} (s : list (name * A)) n p, In p (ndel s n) -> In p s.
+Proof.
+  induction s as [|[m y] t IH]; simpl; intros; auto.
+  destruct (name_eqb m n); auto. destruct H; auto. right. eauto.
+Qed.
+
 Section INV.
   Variable K : name.
   Variable v : cval.
+  Hypothesis HKconst : constant_name K = true.
 
   Definition klook (f : frame) : option obj := nlookup (fstore f) K.
 
   (* a reference is always stored under the name it refers to *)
   Definition same_name (f : frame) : Prop :=
-    forall n up m, nlookup (fstore f) n = Some (ORef up m) -> m = n.
+    forall n up m, In (n, ORef up m) (fstore f) -> m = n.
+
+  Lemma same_name_lookup : forall f n up m, same_name f -> nlookup (fstore f) n = Some (ORef up m) -> m = n.
+  Proof. intros. eapply H. eapply nlookup_In; eauto. Qed.
 
   (* what the entry for K of a frame may be, given the entries of that frame and of the frames further out *)
   Definition okentry (x : option obj) (l : list (option obj)) : Prop :=
@@ -120,7 +147,7 @@ Section INV.
       inversion HS as [|? ? Hf HS']; subst.
       destruct (nlookup (fstore f) K) as [[w|up m]|] eqn:E; simpl in HK.
       + subst. exists j. rewrite Nat.sub_diag. simpl. auto.
-      + pose proof (Hf _ _ _ E). subst m. exists (j + up). split; auto. split; [lia|].
+      + pose proof (same_name_lookup _ _ _ _ Hf E). subst m. exists (j + up). split; auto. split; [lia|].
         replace (j + up - j) with up by lia.
         change (klook f) with (nlookup (fstore f) K) in HK. rewrite E in HK. exact HK.
       + destruct t as [|g t'].
@@ -144,10 +171,8 @@ Section INV.
   Lemma same_name_set : forall f n o, same_name f -> (forall up m, o = ORef up m -> m = n) ->
     same_name (mkframe (nset (fstore f) n o)).
   Proof.
-    unfold same_name. intros f n o Hf Ho n' up m. simpl.
-    destruct (list_eq_dec N.eq_dec n n') as [->|Hne].
-    - rewrite nlookup_nset_same. intros H. inversion H; subst. eauto.
-    - rewrite nlookup_nset_other by auto. eauto.
+    unfold same_name. intros f n o Hf Ho n' up m. simpl. intros H.
+    destruct (In_nset _ _ _ _ H) as [H1|H1]; eauto. inversion H1; subst. eauto.
   Qed.
 
   Lemma Forall_same_upd : forall e i n o, Forall same_name e -> (forall up m, o = ORef up m -> m = n) ->
@@ -208,7 +233,7 @@ Section INV.
     - exfalso. eapply GoodKs_nonempty; eauto.
     - inversion HS as [|? ? Hf HS']; subst.
       destruct (nlookup (fstore f) n) as [o|] eqn:E.
-      + split; [split; auto|]. split; auto. split; [intros; subst; eauto|]. split; [|eauto].
+      + split; [split; auto|]. split; auto. split; [intros; subst; eapply same_name_lookup; eauto|]. split; [|eauto].
         intros ->. pose proof (GoodKs_head _ _ HG) as HK. simpl in HK. unfold klook in HK at 1. rewrite E in HK.
         simpl. auto.
       + destruct (list_eq_dec N.eq_dec n K) as [->|Hne].
@@ -229,7 +254,7 @@ Section INV.
             inversion HS' as [|? ? Hg HS'']; subst.
             destruct (nlookup (fstore g) n) as [[w|up' m']|] eqn:E2.
             - inversion EF; subst. intros ? ? H; inversion H; auto.
-            - inversion EF; subst. intros ? ? H; inversion H; subst. eapply Hg; eauto.
+            - inversion EF; subst. intros ? ? H; inversion H; subst. eapply same_name_lookup; eauto.
             - eapply IH; eauto. }
           split; [apply (Inv_upd_other (f :: t) 0 n r); auto; split; auto|].
           split; [simpl; auto|]. split; auto. split; [intros; contradiction|].
@@ -259,7 +284,7 @@ Section INV.
       - apply Inv_upd_other; auto. discriminate. }
     destruct (nlookup (fstore f) n) as [[old|up m]|] eqn:E.
     - split; [apply Hval|apply upd_frame_length].
-    - pose proof (Hf _ _ _ E). subst m. split; [apply Hthru; auto; split; auto|apply upd_frame_length].
+    - pose proof (same_name_lookup _ _ _ _ Hf E). subst m. split; [apply Hthru; auto; split; auto|apply upd_frame_length].
     - destruct (find_outer t 1 n) as [[w0|up m]|] eqn:EF.
       + split; [apply Hval|apply upd_frame_length].
       + pose proof (env_get_inv (f :: t) n (conj HG HS)) as HGet. simpl in HGet. rewrite E, EF in HGet.
@@ -277,7 +302,7 @@ Section INV.
   Proof.
     intros e [HG HS]. split.
     - simpl. apply GoodKs_push; simpl; auto.
-    - constructor; auto. intros n up m H. discriminate.
+    - constructor; auto. intros n up m H. destruct H.
   Qed.
 
   Lemma Inv_pop : forall f t, Inv (f :: t) -> t <> [] -> Inv t.
@@ -295,7 +320,7 @@ Section INV.
   (* ---- Environment.CreateOrSet *)
   Lemma create_or_set_inv : forall e n w create, Inv e ->
     Inv (fst (create_or_set e n w create)) /\ length (fst (create_or_set e n w create)) = length e /\
-    (n = K -> snd (create_or_set e n w create) = Err \/ (snd (create_or_set e n w create) = Ok w /\ w = v) \/ constant_name K = false).
+    (n = K -> snd (create_or_set e n w create) = Err \/ (snd (create_or_set e n w create) = Ok w /\ w = v)).
   Proof.
     intros e n w create HI. unfold create_or_set.
     destruct (constant_name n) eqn:EC.
@@ -308,14 +333,301 @@ Section INV.
              assert (Hold : n = K -> old = v).
              { intros E. specialize (HK E). destruct e1; [exfalso; eapply Inv_nonempty; eauto|]. simpl in HK. apply HK. }
              destruct (set_no_checks_inv e1 n old create HI1 Hold) as [H1 H2].
-             split; auto. split; [lia|]. intros E. right. left. auto.
+             split; auto. split; [lia|]. intros E. right. auto.
           -- split; auto.
         * split; auto.
       + simpl. destruct (set_no_checks_inv e n w create HI) as [H1 H2]; [intros; contradiction|].
         split; auto. split; auto. intros; contradiction.
-    - simpl. destruct (set_no_checks_inv e n w create HI) as [H1 H2].
-      + intros ->. (* K would not be a constant name *) exact (match EC with eq_refl => fun x => x end (eq_refl w)) || idtac.
-        admit.
-      + split; auto. split; auto. intros ->. right. right. auto.
-  Admitted.
+    - assert (Hne : n <> K) by (intros ->; congruence).
+      simpl. destruct (set_no_checks_inv e n w create HI) as [H1 H2]; [intros; contradiction|].
+      split; auto. split; auto. intros; contradiction.
+  Qed.
+
+  (* ---- Environment.Delete of another name *)
+  Lemma env_delete_length : forall e n, length (fst (env_delete e n)) = length e.
+  Proof.
+    induction e as [|f t IH]; intros; simpl; auto.
+    destruct (nlookup (fstore f) n); simpl; auto.
+    specialize (IH n). destruct (env_delete t n). simpl in *. lia.
+  Qed.
+
+  Lemma env_delete_klook : forall e n, n <> K -> map klook (fst (env_delete e n)) = map klook e.
+  Proof.
+    induction e as [|f t IH]; intros; simpl; auto.
+    destruct (nlookup (fstore f) n); simpl.
+    - f_equal. unfold klook. simpl. apply nlookup_ndel_other. auto.
+    - specialize (IH n H). destruct (env_delete t n). simpl in *. f_equal. auto.
+  Qed.
+
+  Lemma env_delete_same : forall e n, Forall same_name e -> Forall same_name (fst (env_delete e n)).
+  Proof.
+    induction e as [|f t IH]; intros; simpl; auto.
+    inversion H; subst.
+    destruct (nlookup (fstore f) n); simpl.
+    - constructor; auto. intros n' up m Hin. simpl in Hin. apply In_ndel in Hin. eauto.
+    - specialize (IH n H3). destruct (env_delete t n). simpl in *. constructor; auto.
+  Qed.
+
+  Lemma env_delete_inv : forall e n, n <> K -> Inv e ->
+    Inv (fst (env_delete e n)) /\ length (fst (env_delete e n)) = length e.
+  Proof.
+    intros e n Hn [HG HS]. split; [|apply env_delete_length].
+    split; [rewrite env_delete_klook; auto|apply env_delete_same; auto].
+  Qed.
+
+  (* ---- evalIdentifier *)
+  Lemma read_name_inv : forall e n, Inv e ->
+    Inv (fst (read_name e n)) /\ length (fst (read_name e n)) = length e /\
+    (n = K -> snd (read_name e n) = Ok v).
+  Proof.
+    intros e n HI. unfold read_name.
+    pose proof (env_get_inv e n HI) as HG.
+    destruct (env_get e n) as [[e1 o]|].
+    - destruct HG as (HI1 & HL1 & Hnm & HK & (f & t & -> & Hlk)).
+      assert (X : n = K -> deref (f :: t) o = Some v).
+      { intros E. specialize (HK E). destruct o as [w|up m]; simpl in *.
+        - congruence.
+        - unfold klook in HK. pose proof (Hnm _ _ eq_refl). subst m n.
+          destruct up; simpl in *.
+          + unfold klook in HK. inversion HK as [HK']. rewrite HK'. reflexivity.
+          + destruct (nth_error t up) eqn:E2; simpl in *.
+            * rewrite nth_error_map, E2 in HK. simpl in HK. inversion HK as [HK']. unfold klook in HK'. rewrite HK'. reflexivity.
+            * rewrite nth_error_map, E2 in HK. discriminate. }
+      destruct (deref (f :: t) o) eqn:ED; simpl.
+      + split; auto. split; auto. intros E. pose proof (X E) as XE. inversion XE; subst. reflexivity.
+      + split; auto. split; auto. intros E. pose proof (X E) as XE. discriminate.
+    - simpl. split; auto. split; auto. intros E. contradiction.
+  Qed.
+
+  Lemma for_values_inv : forall n vs e last, Inv e ->
+    Inv (fst (for_values e n vs last)) /\ length (fst (for_values e n vs last)) = length e /\
+    (n = K -> snd (for_values e n vs last) = Ok v \/ snd (for_values e n vs last) = Ok last).
+  Proof.
+    induction vs as [|w t IH]; intros e last HI; simpl.
+    - split; auto.
+    - destruct (create_or_set_inv e n w false HI) as (H1 & L1 & _).
+      destruct (create_or_set e n w false) as [e1 r1]. simpl in *.
+      destruct (read_name_inv e1 n H1) as (H2 & L2 & R2).
+      destruct (read_name e1 n) as [e2 r2]. simpl in *.
+      destruct r2 as [r| | |]; try (simpl; split; [auto|split; [lia|]]; intros E; specialize (R2 E); discriminate).
+      destruct (IH e2 r H2) as (H3 & L3 & R3). split; auto. split; [lia|].
+      intros E. specialize (R2 E). inversion R2; subst. destruct (R3 eq_refl); auto.
+  Qed.
+
+  (* ---- one attempt.  c: the repaired code, registers on or off *)
+  Variable c : ccfg.
+  Hypothesis Hct : const_test c = true.
+  Hypothesis Hcow : ccow c = true.
+
+  Definition attempt_deletes (a : attempt) : bool :=
+    match a with ADelete n => name_eqb n K | _ => false end.
+
+  Lemma reg_bound_K : reg_bound c K = false.
+  Proof. unfold reg_bound. rewrite Hct, HKconst. simpl. apply andb_false_r. Qed.
+
+  Lemma set_container_inv : forall e n old nv, Inv e ->
+    Inv (fst (set_container c e n old nv)) /\ length (fst (set_container c e n old nv)) = length e.
+  Proof.
+    intros. unfold set_container. rewrite Hcow. simpl.
+    destruct (create_or_set_inv e n (CV nv) false H) as (H1 & H2 & _). auto.
+  Qed.
+
+  Lemma do_attempt_inv : forall a e, attempt_deletes a = false -> Inv e ->
+    Inv (fst (do_attempt c e a)) /\ length (fst (do_attempt c e a)) = length e.
+  Proof.
+    intros a e Hd HI. destruct a; simpl.
+    - (* = and := *)
+      destruct (create_or_set_inv e n v0 define HI) as (H1 & H2 & _). auto.
+    - (* ++ -- *)
+      destruct (read_name_inv e n HI) as (H1 & L1 & _).
+      destruct (read_name e n) as [e1 r1]. simpl in *.
+      destruct r1 as [old| | |]; auto.
+      destruct old as [[z| |l0|l0]|s0|b0|q]; simpl; auto;
+      try (destruct (int64_ok (z + delta)); simpl; auto);
+      match goal with |- context [create_or_set e1 n ?w false] =>
+        destruct (create_or_set_inv e1 n w false H1) as (H2 & L2 & _);
+        destruct (create_or_set e1 n w false) as [e2 r2]; simpl in *; split; auto; lia end.
+    - (* n[i] = v *)
+      destruct (read_name_inv e n HI) as (H1 & L1 & _).
+      destruct (read_name e n) as [e1 r1]. simpl in *.
+      destruct r1 as [[xv| | |]| | |]; auto.
+      destruct (p_idx_set xv i v0) as [nv| | |]; auto.
+      destruct (set_container_inv e1 n xv nv H1) as (H2 & L2).
+      destruct (set_container c e1 n xv nv) as [e2 r2]. simpl in *. split; auto. lia.
+    - (* del(n[k]) *)
+      pose proof (env_get_inv e n HI) as HG.
+      destruct (env_get e n) as [[e1 o]|]; auto.
+      destruct HG as (H1 & L1 & _).
+      destruct (deref e1 o) as [[[| |l|l]| | |]|]; auto.
+      destruct (kv_del l k) as [l'|]; auto.
+      destruct (set_container_inv e1 n (PMap l) (PMap l') H1) as (H2 & L2).
+      destruct (set_container c e1 n (PMap l) (PMap l')) as [e2 r2]. simpl in *. split; auto. lia.
+    - (* del(n), n <> K *)
+      simpl in Hd. assert (Hn : n <> K) by (intros ->; rewrite name_eqb_refl in Hd; discriminate).
+      destruct (env_delete_inv e n Hn HI) as (H1 & L1).
+      destruct (env_delete e n) as [e1 b0]. simpl in *. auto.
+    - (* for n = a:b *)
+      destruct (b <? a)%Z; auto. destruct (reg_bound c n); auto.
+      destruct (for_values_inv n (int_range a (Z.to_nat (b - a))) e (CV PNil) HI) as (H1 & L1 & _). auto.
+    - (* for n = [..] *)
+      destruct (for_values_inv n (map CV l) e (CV PNil) HI) as (H1 & L1 & _). auto.
+    - (* func(n){n}(v) *)
+      destruct (is_int v0 && reg_bound c n); auto.
+      destruct (create_or_set_inv (empty_frame :: e) n v0 true (Inv_push e HI)) as (H1 & L1 & _).
+      destruct (create_or_set (empty_frame :: e) n v0 true) as [e1 r1]. simpl in *.
+      assert (Hpop : forall e2, Inv e2 -> length e2 = S (length e) -> Inv (tl e2) /\ length (tl e2) = length e).
+      { intros e2 HI2 HL2. destruct e2 as [|f t]; simpl in *; [lia|]. split; [|lia].
+        eapply Inv_pop; eauto. intros ->. simpl in HL2. pose proof (Inv_nonempty e HI). destruct e; simpl in *; [contradiction|lia]. }
+      destruct r1; try (apply Hpop; auto).
+      destruct (read_name_inv e1 n H1) as (H2 & L2 & _).
+      destruct (read_name e1 n) as [e2 r2]. simpl in *. apply Hpop; auto. lia.
+    - (* n *)
+      destruct (read_name_inv e n HI) as (H1 & L1 & _). auto.
+  Qed.
+
+  Definition event_deletes (ev : event) : bool := match ev with Ev _ a => attempt_deletes a end.
+
+  Lemma run_event_inv : forall ev e, event_deletes ev = false -> Inv e ->
+    Inv (fst (run_event c e ev)) /\ length (fst (run_event c e ev)) = length e.
+  Proof.
+    intros [s a] e Hd HI. simpl in Hd.
+    assert (Hpop : forall e2 k, Inv e2 -> length e2 = k + length e -> k <= 2 ->
+              Inv (Nat.iter k (@tl frame) e2) /\ length (Nat.iter k (@tl frame) e2) = length e).
+    { pose proof (Inv_nonempty e HI) as Hne.
+      assert (Hpos : 0 < length e) by (destruct e; simpl; [contradiction|lia]).
+      assert (Hone : forall e2, Inv e2 -> 1 < length e2 -> Inv (tl e2) /\ length (tl e2) = length e2 - 1).
+      { intros e2 HI2 HL2. destruct e2 as [|f t]; simpl in *; [lia|]. split; [|lia].
+        eapply Inv_pop; eauto. intros ->. simpl in HL2. lia. }
+      intros e2 k HI2 HL2 Hk. destruct k as [|[|[|k]]]; simpl; try lia; auto.
+      - destruct (Hone e2 HI2 ltac:(lia)) as [A B]. split; auto. lia.
+      - destruct (Hone e2 HI2 ltac:(lia)) as [A B]. destruct (Hone (tl e2) A ltac:(lia)) as [A2 B2]. split; auto. lia. }
+    destruct s; simpl.
+    - apply do_attempt_inv; auto.
+    - destruct (do_attempt_inv a (empty_frame :: e) Hd (Inv_push e HI)) as (H1 & L1).
+      destruct (do_attempt c (empty_frame :: e) a) as [e1 r1]. simpl in *.
+      apply (Hpop e1 1); auto.
+    - destruct (do_attempt_inv a (empty_frame :: empty_frame :: e) Hd (Inv_push _ (Inv_push e HI))) as (H1 & L1).
+      destruct (do_attempt c (empty_frame :: empty_frame :: e) a) as [e1 r1]. simpl in *.
+      apply (Hpop e1 2); auto.
+    - destruct (do_attempt_inv a e Hd HI) as (H1 & L1).
+      destruct (do_attempt c e a) as [e1 r1]. simpl in *.
+      destruct r1; auto.
+      destruct (do_attempt_inv a e1 Hd H1) as (H2 & L2). split; auto. lia.
+  Qed.
+
+  Lemma run_events_inv : forall evs e, forallb (fun ev => negb (event_deletes ev)) evs = true -> Inv e ->
+    Inv (run_events c e evs) /\ length (run_events c e evs) = length e.
+  Proof.
+    induction evs as [|ev t IH]; intros e Hd HI; simpl; auto.
+    simpl in Hd. apply andb_true_iff in Hd as [Hd1 Hd2]. apply negb_true_iff in Hd1.
+    destruct (run_event_inv ev e Hd1 HI) as (H1 & L1).
+    destruct (IH _ Hd2 H1) as (H2 & L2). split; auto. lia.
+  Qed.
+
+  (* what the name evaluates to, and what attempts that read it observe *)
+  Lemma read_event_value : forall e s, Inv e -> length e = 1 ->
+    snd (run_event c e (Ev s (ARead K))) = Ok v.
+  Proof.
+    intros e s HI HL. destruct s; simpl.
+    - destruct (read_name_inv e K HI) as (_ & _ & R). auto.
+    - destruct (read_name_inv (empty_frame :: e) K (Inv_push e HI)) as (_ & _ & R).
+      destruct (read_name (empty_frame :: e) K). simpl in *. auto.
+    - destruct (read_name_inv (empty_frame :: empty_frame :: e) K (Inv_push _ (Inv_push e HI))) as (_ & _ & R).
+      destruct (read_name (empty_frame :: empty_frame :: e) K). simpl in *. auto.
+    - destruct (read_name_inv e K HI) as (H1 & _ & R).
+      destruct (read_name e K) as [e1 r1]. simpl in *. rewrite (R eq_refl).
+      destruct (read_name_inv e1 K H1) as (_ & _ & R2). auto.
+  Qed.
+
+  Lemma shadow_attempt_value : forall e a, Inv e ->
+    (exists w, a = ACall K w) \/ (exists x y, a = AForInt K x y) \/ (exists l, a = AForList K l) ->
+    snd (do_attempt c e a) = Err \/ snd (do_attempt c e a) = Ok v \/ snd (do_attempt c e a) = Ok (CV PNil).
+  Proof.
+    intros e a HI [[w ->]|[[x [y ->]]|[l ->]]]; simpl.
+    - rewrite reg_bound_K, andb_false_r.
+      destruct (create_or_set_inv (empty_frame :: e) K w true (Inv_push e HI)) as (H1 & L1 & R1).
+      destruct (create_or_set (empty_frame :: e) K w true) as [e1 r1]. simpl in *.
+      destruct (R1 eq_refl) as [->|[-> ->]]; simpl; auto.
+      destruct (read_name_inv e1 K H1) as (_ & _ & R2).
+      destruct (read_name e1 K) as [e2 r2]. simpl in *. rewrite (R2 eq_refl). auto.
+    - destruct (y <? x)%Z; auto. rewrite reg_bound_K.
+      destruct (for_values_inv K (int_range x (Z.to_nat (y - x))) e (CV PNil) HI) as (_ & _ & R).
+      destruct (R eq_refl) as [->| ->]; auto.
+    - destruct (for_values_inv K (map CV l) e (CV PNil) HI) as (_ & _ & R).
+      destruct (R eq_refl) as [->| ->]; auto.
+  Qed.
+  Definition shadowing (a : attempt) : Prop :=
+    (exists w, a = ACall K w) \/ (exists x y, a = AForInt K x y) \/ (exists l, a = AForList K l).
+
+  Lemma shadow_event_value : forall e s a, Inv e -> length e = 1 -> shadowing a ->
+    let r := snd (run_event c e (Ev s a)) in r = Err \/ r = Ok v \/ r = Ok (CV PNil).
+  Proof.
+    intros e s a HI HL Ha.
+    assert (Hnd : attempt_deletes a = false) by (destruct Ha as [[w ->]|[[x [y ->]]|[l ->]]]; reflexivity).
+    destruct s; simpl.
+    - apply shadow_attempt_value; auto.
+    - pose proof (shadow_attempt_value (empty_frame :: e) a (Inv_push e HI) Ha) as H.
+      destruct (do_attempt c (empty_frame :: e) a). simpl in *. auto.
+    - pose proof (shadow_attempt_value (empty_frame :: empty_frame :: e) a (Inv_push _ (Inv_push e HI)) Ha) as H.
+      destruct (do_attempt c (empty_frame :: empty_frame :: e) a). simpl in *. auto.
+    - pose proof (shadow_attempt_value e a HI Ha) as H.
+      destruct (do_attempt_inv a e Hnd HI) as (H1 & _).
+      destruct (do_attempt c e a) as [e1 r1]. simpl in *.
+      destruct r1; auto; try (destruct H as [H|[H|H]]; discriminate).
+      apply shadow_attempt_value; auto.
+  Qed.
 End INV.
+
+(* ------------------------------------------------------------------ the statements used by props/C19.v *)
+
+Definition root_wf (e : env) : Prop :=
+  exists s, e = [mkframe s] /\ forall n up m, In (n, ORef up m) s -> m = n.
+
+Definition event_deletes_name (K : name) (ev : event) : bool := event_deletes K ev.
+
+Lemma root_inv : forall K v s, (forall n up m, In (n, ORef up m) s -> m = n) ->
+  root_value [mkframe s] K = Some v -> Inv K v [mkframe s].
+Proof.
+  intros K v s Hs Hv. split.
+  - simpl. unfold klook. simpl. unfold root_value in Hv. simpl in Hv.
+    destruct (nlookup s K) as [[w|up m]|]; try discriminate. inversion Hv; subst. constructor.
+  - constructor; auto.
+Qed.
+
+(* the binding itself: registers on or off, with or without the constant test on the register paths *)
+Lemma constant_stable : forall c, ccow c = true ->
+  forall (K : name) (v : cval) (evs : list event) (e : env),
+  constant_name K = true -> root_wf e -> root_value e K = Some v ->
+  forallb (fun ev => negb (event_deletes_name K ev)) evs = true ->
+  root_value (run_events c e evs) K = Some v.
+Proof.
+  intros c Hcow K v evs e HK (s & -> & Hs) Hv Hd.
+  destruct (run_events_inv K v HK c Hcow evs _ Hd (root_inv K v s Hs Hv)) as (H1 & L1).
+  apply Inv_root; auto.
+Qed.
+
+(* reading the name, at top level or from a nested function or loop *)
+Lemma constant_read_stable : forall c, ccow c = true ->
+  forall (K : name) (v : cval) (evs : list event) (e : env) (s : scope),
+  constant_name K = true -> root_wf e -> root_value e K = Some v ->
+  forallb (fun ev => negb (event_deletes_name K ev)) evs = true ->
+  snd (run_event c (run_events c e evs) (Ev s (ARead K))) = Ok v.
+Proof.
+  intros c Hcow K v evs e sc HK (s & -> & Hs) Hv Hd.
+  destruct (run_events_inv K v HK c Hcow evs _ Hd (root_inv K v s Hs Hv)) as (H1 & L1).
+  apply read_event_value; auto.
+Qed.
+
+(* using the name as a parameter or as a loop variable never makes it evaluate to something else: the attempt
+   fails, or what the body reads is the constant's value (nil: a loop that did not iterate) *)
+Lemma constant_not_shadowed : forall c, const_test c = true -> ccow c = true ->
+  forall (K : name) (v : cval) (evs : list event) (e : env) (s : scope) (a : attempt),
+  constant_name K = true -> root_wf e -> root_value e K = Some v ->
+  forallb (fun ev => negb (event_deletes_name K ev)) evs = true ->
+  shadowing K a ->
+  let r := snd (run_event c (run_events c e evs) (Ev s a)) in r = Err \/ r = Ok v \/ r = Ok (CV PNil).
+Proof.
+  intros c Hct Hcow K v evs e sc a HK (s & -> & Hs) Hv Hd Ha.
+  destruct (run_events_inv K v HK c Hcow evs _ Hd (root_inv K v s Hs Hv)) as (H1 & L1).
+  apply (shadow_event_value K v HK c Hct Hcow _ sc a H1 L1 Ha).
+Qed.
